@@ -33,7 +33,9 @@ def sweep_inexact_crossing(m):
     point, after which exact incidences with the pieces are lost."""
     from fractions import Fraction as Fr
     c = m.get("case", {})
-    if c.get("op") != "sweep" or m.get("detail", {}).get("what") != "reported pairs differ from the exact set":
+    # (with four segments the same situation also ends in a panic of the sweep's bookkeeping: "segment not found in
+    # active-vec-set", "unable to compare active segments!", "assertion failed ...")
+    if c.get("op") != "sweep" or m.get("detail", {}).get("what") not in ("reported pairs differ from the exact set", "panic"):
         return False
 
     def dyadic(f):
